@@ -81,6 +81,37 @@ class X86Model(object):
         self._addop_facts()
         self._rows()
         self._expand()
+        self._mmx_names()
+
+    # -- names that depend on the built table (mnemo_mmx_hash loop at module level), recomputed statically
+    def mmx_set_suffix(self, name, p):
+        for key, vals in self.env['mmx_suffixes'].items():
+            if key in name:
+                i = name.rfind(key)          # re.match('(\\S*)' + key + '(\\S*)') is greedy on the left
+                return name[:i] + vals[p] + name[i + len(key):]
+        return name
+
+    def _mmx_names(self):
+        E = self.env
+        h = {}
+        for m in self.lookup:
+            if '#' in m:
+                for p in range(4):
+                    n = self.mmx_set_suffix(m, p)
+                    if 'INVALID' in n:
+                        continue
+                    h[n] = m
+            if m == 'cmp#ps#':
+                for p in E['mnemo_sse_cmp']:
+                    h[p] = m
+        E['mnemo_mmx_hash'] = h
+        # re-evaluate the module-level assignments that depend on it
+        ev = Evaluator(E)
+        for name in ('mnemo_mmx', 'mnemo_float_optional_suffix', 'att_mnemo_table'):
+            try:
+                E[name] = ev.ev(self.arch.assign_value(name))
+            except NotConst as e:
+                raise AnalysisError('ia32_arch.%s not evaluable after table expansion: %s' % (name, e))
 
     # -- facts read from addop itself
     def _addop_facts(self):
